@@ -14,6 +14,8 @@
 //   wbuf <n>                     FileSinkConfig::set_write_buffer_size (-1 = leave default)
 //
 // mode crash
+//   exitwait 0|1                 BackendOptions::wait_for_queues_to_empty_before_exit; 0 only when the event is a signal (the
+//                                signal clause of C07 does not depend on that option, the stop/exit clause requires it)
 //   backend sleep_us=<n> slow_us=<n> grace_us=<n> flush_ms=<n>
 //   handler 0|1 timeout=<s> logger=none|named|missing
 //   loggers shared|per_thread
@@ -180,6 +182,7 @@ struct BackendSpec
   long slow_us{0};
   long grace_us{1};
   long flush_ms{200};
+  bool exit_wait{true}; // BackendOptions::wait_for_queues_to_empty_before_exit (false only with a signal as the event)
 };
 
 struct ThreadSpec
@@ -258,6 +261,7 @@ Spec build_spec(std::vector<Line> const& lines)
     else if (l.key == "queue") s.small_queue = (p0() == "small");
     else if (l.key == "level") s.level = p0();
     else if (l.key == "wbuf") s.wbuf = std::strtol(p0().c_str(), nullptr, 10);
+    else if (l.key == "exitwait") s.be.exit_wait = p0() != "0";
     else if (l.key == "backend") read_backend(l.kv, s.be);
     else if (l.key == "handler")
     {
@@ -405,7 +409,7 @@ quill::BackendOptions make_backend_options(BackendSpec const& b)
 {
   quill::BackendOptions bo;
   if (b.sleep_us >= 0) bo.sleep_duration = std::chrono::microseconds{b.sleep_us};
-  bo.wait_for_queues_to_empty_before_exit = true;
+  bo.wait_for_queues_to_empty_before_exit = b.exit_wait;
   bo.log_timestamp_ordering_grace_period = std::chrono::microseconds{b.grace_us};
   bo.sink_min_flush_interval = std::chrono::milliseconds{b.flush_ms};
   return bo;
